@@ -589,9 +589,60 @@ async function c04node(listFile) {
 // ------------------------------------------------------------------------------------------------
 // worker / coordinator
 // ------------------------------------------------------------------------------------------------
+// C13, clause "terminates on recursive types" and independence of a digest from what was hashed
+// before on the same objects: every parser of a compiled module is hashed, another parser is
+// hashed in between, it is hashed again, and once more on a brand-new module instance.
+async function execStability(mods, run) {
+  const base = mods.find((m) => m.id === run.module);
+  const out = { violations: [], hashed: 0 };
+  if (!base) return out;
+  const viol = (cls, detail) => {
+    if (!out.violations.some((v) => v.class === cls)) out.violations.push({ property: "C13", class: cls, detail });
+  };
+  const fresh = await pristine(base);
+  const names = base.names;
+  for (let i = 0; i < names.length; i++) {
+    const P = base.P[names[i]];
+    let a, b, c, h32a, h32b;
+    try {
+      a = P.hash256();
+      h32a = P.hash();
+      base.P[names[(i + 1) % names.length]].hash256();
+      b = P.hash256();
+      h32b = P.hash();
+      c = fresh.P[names[i]].hash256();
+    } catch (e) {
+      viol("hash256-throws", { module: base.id, parser: names[i], msg: String(e && e.message).slice(0, 200) });
+      continue;
+    }
+    out.hashed++;
+    if (typeof a !== "string" || !/^[0-9a-f]{64}$/.test(a)) viol("hash256-is-not-a-sha256-hex-string", { module: base.id, parser: names[i], value: a });
+    if (a !== b || h32a !== h32b) viol("hash-depends-on-earlier-calls", { module: base.id, parser: names[i], first: a, again: b });
+    if (a !== c) viol("hash-differs-on-a-fresh-module-instance", { module: base.id, parser: names[i], first: a, fresh: c });
+  }
+  return out;
+}
+
 async function workerMain(prop) {
   try {
     let ctxs = {};
+    if (prop === "C13S") {
+      ctxs.mods = await loadModules();
+      process.on("message", async (m) => {
+        if (m.done) process.exit(0);
+        try {
+          const run = m.run ?? { module: ctxs.mods[m.index % ctxs.mods.length].id };
+          process.send({ start: m.index, run });
+          const result = await execStability(ctxs.mods, run);
+          if (result.violations.length) result.run = run;
+          process.send({ index: m.index, result });
+        } catch (e) {
+          process.send({ fatal: "worker: " + (e && e.stack) });
+        }
+      });
+      process.send({ ready: true });
+      return;
+    }
     if (prop === "C16") {
       ctxs.SPC = (await rt("codegen-v2")).SchemaPrintingContext;
       ctxs.mods = await loadModules();
@@ -716,6 +767,16 @@ async function main() {
       ctxs.H = await rt("hash");
       installTap(ctxs.H);
     }
+    if (run.ops && run.ops[0] && run.ops[0].op === "hash256-stability") {
+      const r = await alone(SELF, ["C13S"], { module: run.module }, 30000);
+      const hit = r.stalled ? "hash256-never-returns" : r.result && r.result.violations.find((v) => v.class === run.violation_class) ? run.violation_class : null;
+      if (hit) {
+        console.log(`VIOLATION property=C13 replay=${a1} class=${hit}`);
+        process.exit(1);
+      }
+      console.log(`replay of ${a1} did not reproduce class '${run.violation_class}'`);
+      process.exit(0);
+    }
     if (run.violation_class === "call-never-returns") {
       const r = await alone(SELF, [prop], run, 30000);
       if (r.stalled) {
@@ -809,6 +870,31 @@ async function main() {
     big = bigC13(H);
     if (!big.ok) agg.viol.set("digest-is-not-sha256-of-the-written-bytes(2^29)", { index: -1, v: { property: "C13", class: "digest-is-not-sha256-of-the-written-bytes", detail: big }, run: { ops: [{ op: "big", chunks: 514, chunk_bytes: 1 << 20 }] } });
   }
+  // C13: termination / stability of hash256() and hash() on every parser of every compiled module
+  let stability = null;
+  if (prop === "C13" && !only) {
+    const index = JSON.parse(fs.readFileSync(path.join(JSRT, "index.json"), "utf8"));
+    const nMods = tier === "quick" ? Math.min(index.length, 200) : index.length;
+    stability = { modules: nMods, parsers: 0, stalled: 0 };
+    const st = [];
+    try {
+      await pool(SELF, ["C13S"], Array.from({ length: nMods }, (_, i) => i), workers, (i, r) => {
+        stability.parsers += r.hashed || 0;
+        for (const v of r.violations) if (!agg.viol.has(v.class)) agg.viol.set(v.class, { index: -3, v, run: { ...r.run, ops: [{ op: "hash256-stability" }] } });
+      }, (i, run) => st.push({ i, run }));
+    } catch (e) {
+      console.log("HARNESS-ERROR: " + e.message);
+      process.exit(2);
+    }
+    for (const x of st.slice(0, 2)) {
+      const r = await alone(SELF, ["C13S"], x.run, 30000);
+      if (r.stalled) {
+        stability.stalled++;
+        agg.viol.set("hash256-never-returns", { index: -3, v: { property: "C13", class: "hash256-never-returns", detail: { module: x.run.module, limit_s: 30 } }, run: { ...x.run, ops: [{ op: "hash256-stability" }] } });
+        break;
+      }
+    }
+  }
   // known findings, minimisation, replay files
   const findings = loadFindings();
   const ctxs = {};
@@ -889,6 +975,7 @@ async function main() {
             sequences_needing_the_extra_padding_block: agg.extraPad,
             sibling_sequences_compared_for_injectivity: agg.siblings || 0,
             run_over_2_pow_29_bytes: big ? { ok: big.ok, bytes: big.bytes } : "thorough tier only",
+            hash256_stability_leg: stability,
             faults_fired: { operations_after_digest: "see samples; every run ends with 0-2 of them" },
             components: { real: ["packages/beff-client/src/hash.ts type-stripped from the working tree"], stub: ["type stripper (swc based)"], oracle: "node:crypto createHash('sha256')" },
           },
